@@ -54,7 +54,7 @@ func genMsgKey(r *rand.Rand, alg int, withBaseIV bool) msgKey {
 		}
 		parts = append(parts, extra...)
 		if withBaseIV {
-			parts = append(parts, "int:5", "b:"+hx(randBytes(r, nonceSizeOf(alg))))
+			parts = append(parts, "int:5", []string{"b:", "b:", "bs:", "bx:"}[r.Intn(4)]+hx(randBytes(r, nonceSizeOf(alg))))
 		}
 		mk.priv = strings.Join(append(parts, "}"), " ")
 		mk.pub = mk.priv
@@ -147,9 +147,10 @@ func payloadTok(r *rand.Rand, mode string, big bool) string {
 	case 1:
 		return "-"
 	default:
-		n := []int{1, 5, 23, 24, 25, 100, 255, 256, 257}[r.Intn(9)]
+		// every CBOR length class, and the sizes at which chunked / buffered primitives change gear (512, 4096)
+		n := []int{1, 5, 23, 24, 25, 100, 255, 256, 257, 511, 512, 513, 1000, 4095, 4096, 4097}[r.Intn(16)]
 		if big && r.Intn(3) == 0 {
-			n = []int{65535, 65536, 70000}[r.Intn(3)]
+			n = []int{65535, 65536, 70000, 32767, 32768, 40000}[r.Intn(6)]
 		}
 		return hx(randBytes(r, n))
 	}
